@@ -142,7 +142,7 @@ def tlc_trace(module, cfg, wd, trace_path, timeout=3600, heap="4g", extra_env=No
     if extra_env:
         env.update(extra_env)
     r = tlc(module, cfg, wd, workers=1, env=env, timeout=timeout, heap=heap, deque=True, stack=True)
-    m = re.search(r'"REJECTED at event", (\d+)', r.out)
+    m = re.search(r'"REJECTED at event",\s*(\d+)', r.out)
     if m:
         return False, {"at": int(m.group(1)), "out": r.out, "res": r}
     if not r.ok:
